@@ -16,7 +16,9 @@ Proof. repeat split; reflexivity. Qed.
    model's scan_step does (no record is skipped because of its source phase, its outcome or the
    phase scanned so far) *)
 Lemma gen_decisions_logged_and_scanned :
-  gen_timeout_abort_logged = true /\ gen_scan_phase_plain = true /\ gen_scan_complete_plain = true.
+  gen_timeout_abort_logged = true /\ gen_scan_phase_plain = true /\ gen_scan_complete_plain = true
+  /\ gen_committing_kept = true    (* abort() refuses, the sweep skips a Committing transaction *)
+  /\ gen_recovery_drops_completed = true.   (* recover_from_wal: completed ones leave, the others stay *)
 Proof. repeat split; reflexivity. Qed.
 
 (* commit / abort write TxComplete BEFORE any LockRelease record (read off the model's step, whose
